@@ -9,6 +9,7 @@ from ..cfg import CFG
 from ..core import AnalysisError, const_value, walk_own
 from ..defuse import DefUse, Terms, show, walk_term
 from ..effects import WriterEvents
+from ..astutil import live
 
 EXPLANATION = (
     "Static analysis of every concrete TabularDataReader / "
@@ -351,7 +352,7 @@ def _buffered(ctx):
               "all three buffer kinds", "buffer concatenation order changed",
               node=ap.node)
     fin = cls.methods["finalize"]
-    body = [ast.unparse(s) for s in fin.node.body]
+    body = [ast.unparse(s) for s in live(fin.node.body, fin.node)]
     ctx.check(body == ["self._write_buffer(force=True)",
                        "self.writer.finalize()"], "C13d-finalize-flushes",
               fin, "finalize forces the flush, then finalizes the inner "
@@ -362,7 +363,7 @@ def _buffered(ctx):
 def _lifecycle(ctx):
     prog = ctx.prog
     w = prog.func(TD + "TabularDataWriter.write")
-    body = [ast.unparse(s) for s in w.node.body]
+    body = [ast.unparse(s) for s in live(w.node.body, w.node)]
     ctx.check(body == ["self.check_valid_data(data)", "self.initialize()",
                        "self.append_data(data)", "self.finalize()"],
               "C13e-write-protocol", w,
@@ -389,7 +390,8 @@ def _lifecycle(ctx):
               "__enter__/__exit__ changed", node=ex.node)
     # CSV writer
     ca = prog.func(TD + "CSVFileWriter.append_data")
-    body = [ast.unparse(s).replace("\n", "") for s in ca.node.body]
+    body = [ast.unparse(s).replace("\n", "") for s in live(ca.node.body,
+                                                           ca.node)]
     ok = body[:1] == ["self.check_valid_data(data)"] and len(body) == 2 and \
         body[1].replace(" ", "") == (
             "data.to_csv(self.file_name,mode='a',header=False,"
